@@ -69,6 +69,7 @@ def _run(repo: Repo, rep: Report, tier: str, only_completion: bool) -> None:
 
     if not only_completion:
         check_message_reset(repo, rep)
+        check_file_offset(repo, rep)
         from .c16 import check_reader_presence
         check_reader_presence(repo, rep, "reader-bits")
         check_every_pdv_classified(repo, rep)
@@ -469,6 +470,39 @@ def check_encode_msg_evaluated(repo: Repo, rep: Report, k0: int) -> None:
     if not bad:
         rep.ok("overhead-count", f"{FQ}.encode_msg :: {n} (maximum, command length, data length, path) points", "fragments = consecutive payload-size slices, flags 01..03 then 00..02")
     rep.floor("encode_msg evaluation points", n, 150)
+
+
+def check_file_offset(repo: Repo, rep: Report, rule: str = "file-offset") -> None:
+    """For a file-backed C-STORE the data set is 'the bytes of the file from <offset> on'; split_dataset()
+    supplies the offset. It must be where the parser actually stopped after the last group-0002 element
+    (`fp.tell()`), not a number computed from a value stored *in* the file: (0002,0000) File Meta Information
+    Group Length is just data - stale or wrong in many files that read fine - and an offset derived from it
+    puts the tail of the File Meta in front of the data set or cuts the data set's first bytes."""
+    rep.rule(rule, "split_dataset() returns the position the File Meta parser stopped at (tell()), never an offset computed from the file's own group length")
+    m = repo.mod("dsutils")
+    fn = m.funcs.get("split_dataset")
+    if fn is None:
+        rep.defer("dsutils.split_dataset vanished")
+        return
+    n = 0
+    for r in [r for r in walk_no_nested(fn) if isinstance(r, ast.Return) and r.value is not None]:
+        v = r.value
+        off = v.elts[1] if isinstance(v, ast.Tuple) and len(v.elts) == 2 else None
+        if off is None:
+            rep.defer(f"dsutils.split_dataset: `return {norm(v)[:40]}` is not (file meta, offset)")
+            continue
+        n += 1
+
+        def is_tell(e):
+            return isinstance(e, ast.Call) and isinstance(e.func, ast.Attribute) and e.func.attr == "tell" and not e.args
+
+        srcs = [off]
+        if isinstance(off, ast.Name):
+            srcs = [a.value for a in walk_no_nested(fn) if isinstance(a, (ast.Assign, ast.AnnAssign)) and getattr(a, "value", None) is not None and any(norm(t) == off.id for t in (a.targets if isinstance(a, ast.Assign) else [a.target]))]
+            srcs += [a for a in walk_no_nested(fn) if isinstance(a, ast.AugAssign) and norm(a.target) == off.id]
+        bad = [x for x in srcs if not is_tell(x)]
+        rep.check(bool(srcs) and not bad, rule, "dsutils.split_dataset", r, f"the data-set offset is {('`' + norm(bad[0])[:60] + '`') if bad else 'not assigned'} - not the position the parser stopped at: computed from values stored in the file (the group length element) it is wrong whenever that value is stale, and encode_msg then sends File Meta bytes in front of the data set or drops the data set's first bytes; the fragments are well-formed but do not reassemble to the data set", mod=m, node=bad[0] if bad else r)
+    rep.floor("returns of split_dataset", n, 1)
 
 
 def check_message_reset(repo: Repo, rep: Report) -> None:
